@@ -19,7 +19,8 @@ Unconnected Send wrapper and Multiple Service Packet, the stream loop `serve`, r
 * **finding** `nested_bundles_superlinear`: Multiple Service Packets nested in one another make the parsers'
   work quadratic (each level re-parses everything inside it) -- the linear bound holds only without nesting
 * state protection: `tags_change_only_by_write` (stream), `frame_change_is_write`, `bad_frame_isolated`,
-  `request_change_is_write`, `hostile_stream_no_effect`, `later_session_unaffected`
+  `request_change_is_write`, `hostile_stream_no_effect`, `later_session_unaffected`,
+  `sized_frame_change_is_write`, `oversize_request_refused_noop` (the `--size` limit)
 * datagrams (UDP loop `serveDatagrams`): `datagram_independent`, `hostile_datagram_invisible`,
   `datagram_trailing_bytes_ignored`, `datagram_incomplete_dropped`, `datagram_change_is_write`
 * replies: `decoded_frame_is_answered`
@@ -281,6 +282,31 @@ theorem frame_change_is_write (d : Dev) (h : Header) (pl : Bytes) (hc : (serveFr
     simp only [hd] at hc
     exact ⟨dec, rfl, exec_change_is_write d dec.req hc⟩
 
+/-- **A request refused for its size is not executed** (`--size` limit configured): whatever it carries, the
+device is unchanged, and the only frames that change a tag are within the limit, decode, and contain an accepted
+write. -/
+theorem sized_frame_change_is_write (limit : Option Nat) (d : Dev) (h : Header) (pl : Bytes)
+    (hc : (serveFrameSized limit d h pl).1 ≠ d) :
+    (∀ n, limit = some n → pl.length ≤ n) ∧ ∃ dec, decodeFrame d h pl = some dec ∧ AcceptedWrite d dec.req := by
+  unfold serveFrameSized at hc
+  cases limit with
+  | none => exact ⟨fun n hn => by simp at hn, frame_change_is_write d h pl hc⟩
+  | some n =>
+    simp only at hc
+    split at hc
+    · split at hc <;> exact absurd rfl hc
+    · rename_i hle
+      refine ⟨fun m hm => ?_, frame_change_is_write d h pl hc⟩
+      simp only [Option.some.injEq] at hm
+      omega
+
+theorem oversize_request_refused_noop (n : Nat) (d : Dev) (h : Header) (pl : Bytes) (hl : n < pl.length) :
+    (serveFrameSized (some n) d h pl).1 = d := by
+  by_cases hc : (serveFrameSized (some n) d h pl).1 = d
+  · exact hc
+  · have := (sized_frame_change_is_write (some n) d h pl hc).1 n rfl
+    omega
+
 /-- **No byte sequence alters a tag except through a complete, well-formed, accepted write request**:
 if serving the stream `bs` (whatever the fate of the frames that are not well-formed requests) leaves the device
 different, then at some offset of `bs` a complete frame starts whose payload decodes — every length, count,
@@ -486,6 +512,12 @@ example : (serveDatagrams demoDev [writeFrame.take 50, badFrame ++ [1, 2, 3], wr
       = [.dropped, .frame .other, (serveDatagram demoDev writeFrame).2]
     ∧ (serveDatagrams demoDev [writeFrame.take 50, badFrame ++ [1, 2, 3], writeFrame ++ [9, 9]]).1
       = (serveDatagram demoDev writeFrame).1 := by decide +kernel
+
+/-- with `--size 40` the 44-byte write is answered with status 0x65 and changes nothing; with `--size 44` it is executed -/
+example : (serveFrameSized (some 40) demoDev ⟨111, 44, 287454020, 0, [1, 2, 3, 4, 5, 6, 7, 8], 0⟩ (writeFrame.drop 24))
+      = (demoDev, .reply [111, 0, 0, 0, 68, 51, 34, 17, 0x65, 0, 0, 0, 1, 2, 3, 4, 5, 6, 7, 8, 0, 0, 0, 0] false)
+    ∧ (serveFrameSized (some 44) demoDev ⟨111, 44, 287454020, 0, [1, 2, 3, 4, 5, 6, 7, 8], 0⟩ (writeFrame.drop 24)).1
+      ≠ demoDev := by decide +kernel
 
 /-- a truncated frame: nothing is processed -/
 example : serve (fun _ => true) demoDev (writeFrame.take 67) = (demoDev, []) := by decide +kernel
